@@ -81,6 +81,17 @@ CheckEvent(e) ==
                 (ns[j].item.idx = fd.node \/ ns[j].item.idx \in {pr[1] : pr \in SeqToSet(PathOf(t, fd.node))})
                 => SatAll(Reported(ns[j]), fd.x, e.den),
          "a grid input does not satisfy the reported path conditions of a node on its own path", "grid-sat")
+    \* PolyhedraGen::with_root(start): the subtree of start in depth-first order; whatever path conditions are reported for a node n
+    \* (with or without the edge into start) must hold for every input routed through n, and an input that reaches start and lies
+    \* strictly inside them must be routed through n
+    /\ V("C09", e, \A n \in 1..Len(e.subs) :
+            LET sb == e.subs[n] IN sb.res = "ok" /\ [j \in 1..Len(sb.steps) |-> sb.steps[j].item] = Tr!Ref("dfs", t, sb.start, {}),
+         "a traversal started below the root (PolyhedraGen::with_root) does not report the nodes of that subtree in depth-first order", "with-root/stream")
+    /\ V("C09", e, \A n \in 1..Len(e.subs) : \A j \in 1..Len(e.subs[n].steps) :
+            LET st == e.subs[n].steps[j]  nd == st.item.idx IN
+            nd \in Occ(t) => /\ Subset(RouteRegion(t, nd), Reported(st), d)
+                              /\ Subset(Strict(Reported(st)) \cup RouteRegion(t, e.subs[n].start), RouteRegion(t, nd), d),
+         "path conditions reported by a traversal started below the root do not characterise the inputs routed through the node", "with-root/conditions")
     \* PolyhedraIter: same items, and size_hint brackets the number of items still to come
     /\ V("C13", e, e.iter.res = "ok", "polyhedra_iter() panicked", "iter-panic")
     /\ V("C13", e, e.iter.res # "ok" \/ Items(e.iter.run.steps) = ref, "polyhedra_iter() items differ from the reference depth-first traversal", "iter-items")
